@@ -2,7 +2,7 @@ use std::io::{BufRead, Seek, Write};
 use cbor_event::de::Deserializer;
 use cbor_event::se::Serializer;
 use crate::protocol_types::Deserialize;
-use crate::{CborSetType, DeserializeError, Vkeywitness, Vkeywitnesses};
+use crate::{CborSetType, DeserializeError, DeserializeFailure, Vkeywitness, Vkeywitnesses};
 use crate::serialization::utils::skip_set_tag;
 
 impl cbor_event::se::Serialize for Vkeywitnesses {
@@ -38,7 +38,9 @@ impl Deserialize for Vkeywitnesses {
                 cbor_event::Len::Indefinite => true,
             } {
                 if raw.cbor_type()? == cbor_event::Type::Special {
-                    assert_eq!(raw.special()?, cbor_event::Special::Break);
+                    if raw.special()? != cbor_event::Special::Break {
+                        return Err(DeserializeFailure::EndingBreakMissing.into());
+                    }
                     break;
                 }
                 wits.add_move(Vkeywitness::deserialize(raw)?);
